@@ -115,6 +115,8 @@ def replay_mcops(out, prop, tier):
             mine = cost_differs                      # a successful call charges another cost than documented
         elif prop == "C11":
             mine = val_differs                       # value differs under (at least) one cost model
+        elif prop == "C25":
+            mine = ("panic" in got) or got.get("kind") == "InternalError"     # totality of operators called directly
         elif prop == "C02":
             # the budget equals the documented cost (or is unlimited) and the call is refused for cost
             mine = e.get("st") == "ok" and got.get("ok") is False and got.get("kind") == "CostExceeded" \
@@ -148,7 +150,7 @@ def _is_unknown_call(m):
 def check(prop, tier, seed):
     out = C.Outcome(prop)
     quick = tier == "quick"
-    if prop in ("C02", "C11"):
+    if prop in ("C02", "C11", "C25"):
         replay_mcops(out, prop, tier)
         out.evaluations = out.traces
         out.nontrivial = out.traces
